@@ -103,7 +103,7 @@ def conf_plan(prop, fams, kinds):
     return run
 
 
-PLANS["C07"] = conf_plan("C07", [("allow", 2, 3), ("url", 1, 2), ("link", 2, 3)], "7,7,7,7,0,6")
+PLANS["C07"] = conf_plan("C07", [("allow", 2, 3), ("url", 1, 2), ("link", 2, 3), ("style", 1, 2)], "7,7,7,7,0,6")
 PLANS["C20"] = conf_plan("C20", [("link", 2, 3), ("allow", 2, 3), ("style", 1, 2), ("forced", 2, 3)], "0,1,3,4,6,7")
 
 
